@@ -12,7 +12,7 @@ import (
 func opKind(op string) string {
 	switch op {
 	case "tag.delete", "m:delete", "manifest.put", "m:put", "blob.put", "b:put", "image.copy", "image.copy+dt",
-		"image.copy+fr", "image.importTar":
+		"image.copy+fr", "image.copy+pf", "image.copy+ie", "image.importTar":
 		return "write"
 	case "image.exportTar":
 		return "export"
@@ -102,6 +102,20 @@ func (rn *renderer) call(st stmt) (expr, bind, enc string) {
 	switch st.Op {
 	case "repo.ls":
 		return "repo.ls(" + q(hostName[x]) + ")", "", "list(v1)"
+	case "repo.ls+limit":
+		return "repo.ls(" + q(hostName[x]) + ", {limit = 1})", "", "list(v1)"
+	case "m:head":
+		return "m:head()", "m", "str(v1)"
+	case "m:ratelimitWait":
+		return "m:ratelimitWait(1, \"1s\", \"2s\")", "", "str(v1)"
+	case "b:get", "b:head":
+		return "b:" + st.Op[2:] + "(" + dig(y) + ")", "b", `"blob"`
+	case "r:close":
+		return "r:close()", "", `"closed"`
+	case "image.copy+pf":
+		return "image.copy(" + rn.ref(x) + ", " + rn.ref(y) + ", {platforms = {\"linux/amd64\"}})", "", `"done"`
+	case "image.copy+ie":
+		return "image.copy(" + rn.ref(x) + ", " + rn.ref(y) + ", {includeExternal = true})", "", `"done"`
 	case "tag.ls":
 		return "tag.ls(" + rn.ref(x) + ")", "", "list(v1)"
 	case "manifest.get", "manifest.getList", "manifest.head", "image.manifest", "image.manifestHead", "image.manifestList":
